@@ -67,7 +67,14 @@ func New(config ...Config) fiber.Handler {
 			if !isValid {
 				panic("[CSRF] Invalid origin format in configuration:" + origin)
 			}
-			sd := subdomain{prefix: normalizedOrigin[:i+3], suffix: normalizedOrigin[i+3:]}
+			// Split behind the scheme of the normalized origin (a userinfo is gone from it, so the
+			// offset in the configured text does not apply). What follows must still be the host
+			// suffix led by the dot that followed the wildcard.
+			schemeSep := strings.Index(normalizedOrigin, "://")
+			if schemeSep == -1 || !strings.HasPrefix(normalizedOrigin[schemeSep+3:], ".") {
+				panic("[CSRF] Invalid origin format in configuration:" + origin)
+			}
+			sd := subdomain{prefix: normalizedOrigin[:schemeSep+3], suffix: normalizedOrigin[schemeSep+3:]}
 			trustedSubOrigins = append(trustedSubOrigins, sd)
 		} else {
 			isValid, normalizedOrigin := normalizeOrigin(origin)
